@@ -149,6 +149,10 @@ Definition the_drop_id (c : case) : list string :=
   match cs_flow c with FJwtBearer => [] | _ => cl_drop_id (cs_client c) end.
 Definition the_drop_at (c : case) : list string :=
   match cs_flow c with FJwtBearer => [] | _ => cl_drop_at (cs_client c) end.
+Definition the_assert (c : case) : bool :=
+  match cs_flow c with FJwtBearer => false | _ => cl_assert (cs_client c) end.
+(* OpenID Connect Core 5.4: scopes whose claims the userinfo endpoint serves *)
+Definition core_userinfo_scopes : list string := ["profile"; "email"; "address"; "phone"].
 Definition expected_nonce (c : case) : string :=
   if is_auth_request (cs_flow c) then rq_nonce (cs_req c) else "".
 
@@ -183,13 +187,22 @@ Definition hash_binds (c : case) (alg preimage claim : string) : bool :=
   if preimage =s "" then claim =s ""
   else negb (claim =s "") && (claim =s claim_hash (lookup_hash (cs_hashes c)) alg preimage).
 
+(* scopes whose claims may be asserted in this ID token: the request's, minus
+   what the client keeps out of ID tokens; when an access token is delivered
+   with it and the client is not configured for userinfo assertion, the
+   userinfo scopes (OIDC Core 5.4) are served by the userinfo endpoint only;
+   in a token exchange the storage fills the claims from the request itself
+   (SetUserinfoFromTokenExchangeRequest) *)
+Definition id_granted (c : case) (r : response) : list string :=
+  let rq := cs_req c in
+      if is_exchange (cs_flow c) then rq_scopes rq
+      else let s0 := restrict (the_drop_id c) (rq_scopes rq) in
+           if negb (access_wire (r_access r) =s "") && negb (the_assert c)
+           then filter (fun s => negb (string_in s core_userinfo_scopes)) s0 else s0.
+
 Definition id_token_ok (c : case) (r : response) (k : checks) (j : jws_desc) (ic : idclaims) : bool :=
   let rq := cs_req c in
-  (* scopes whose claims may be asserted: the request's, minus what the client
-     keeps out of ID tokens; in a token exchange the storage fills the claims
-     from the request itself (SetUserinfoFromTokenExchangeRequest) *)
-  let granted := if is_exchange (cs_flow c) then rq_scopes rq
-                 else restrict (the_drop_id c) (rq_scopes rq) in
+  let granted := id_granted c r in
   signed_by_current c j
   && (if consistent c then match k_id_verdict k with Some VAccept => true | _ => false end else true)
   && (i_iss ic =s cs_issuer c)
@@ -214,6 +227,10 @@ Definition id_token_ok (c : case) (r : response) (k : checks) (j : jws_desc) (ic
   && ((i_name ic =s "") || string_in "profile" granted)
   && ((i_email ic =s "") || string_in "email" granted)
   && (negb (i_email_verified ic) || string_in "email" granted)
+  && ((i_username ic =s "") || string_in "profile" granted)
+  && ((i_phone ic =s "") || string_in "phone" granted)
+  && (negb (i_phone_verified ic) || string_in "phone" granted)
+  && ((i_addr ic =s "") || string_in "address" granted)
   && match i_extra ic with [] => true | _ => false end.
 
 Definition stored_id (k : checks) : string :=
@@ -303,6 +320,8 @@ Definition id_eqb (a b : idclaims) : bool :=
   && (i_at_hash a =s i_at_hash b) && (i_c_hash a =s i_c_hash b)
   && (i_name a =s i_name b) && (i_email a =s i_email b)
   && Bool.eqb (i_email_verified a) (i_email_verified b)
+  && (i_username a =s i_username b) && (i_phone a =s i_phone b)
+  && Bool.eqb (i_phone_verified a) (i_phone_verified b) && (i_addr a =s i_addr b)
   && extras_eqb (i_extra a) (i_extra b).
 
 Definition at_eqb (a b : atclaims) : bool :=
